@@ -4,7 +4,7 @@
 #    45 stable baseline tests still pass with it; 2. applies the patch to /repo, runs the named quick checks, reverts.
 import json, os, shutil, subprocess, sys, time
 ENV = dict(os.environ, GOFLAGS='-mod=mod', GOPROXY='off', GOSUMDB='off', GOTOOLCHAIN='local')
-WT = '/tmp/mw'
+WT = '/tmp/mw-%d' % os.getpid()
 
 
 def sh(cmd, cwd=None, timeout=1800):
@@ -59,7 +59,7 @@ def main():
         sh(['git', '-C', '/repo', 'worktree', 'remove', '--force', WT])
         shutil.rmtree(WT, ignore_errors=True)
     # run the checks against a scratch worktree with the patch applied (VERIF_REPO), /repo itself stays untouched
-    WC = '/tmp/mwc'
+    WC = '/tmp/mwc-%d' % os.getpid()
     if os.path.exists(WC):
         sh(['git', '-C', '/repo', 'worktree', 'remove', '--force', WC])
         shutil.rmtree(WC, ignore_errors=True)
@@ -79,6 +79,7 @@ def main():
         ENV.pop('VERIF_REPO', None)
         sh(['git', '-C', '/repo', 'worktree', 'remove', '--force', WC])
         shutil.rmtree(WC, ignore_errors=True)
+        shutil.rmtree(os.path.join('/verif/.build', 'bin-' + os.path.basename(WC)), ignore_errors=True)
     print(json.dumps(res, indent=1))
     return 0
 
